@@ -61,27 +61,33 @@ def judge_single(labels, uniq, opname, mode, pre, pts, res, err, before, after, 
         if res or len(moved):
             viol_add(f"C11/{kind}/{opname}/no-eligible-particle", f"returned {res!r}, moved atoms {moved.tolist()}; {where}", rep)
         return
-    # which label was chosen
+    # which label was chosen: read off the outcome (the statement fixes neither how many draws the
+    # selection takes nor its law - the law is C01's subject)
+    checks = [p.idx for p in pts if p.kind == "user"]
+    vetoed_all = len(checks) == 2 and all(c == 1 for c in checks)
     if pre is None:
-        cps = [p for p in pts if p.kind == "choice"]
-        if len(cps) != 1:
-            viol_add(f"C11/{kind}/{opname}/random/selection-draws", f"{len(cps)} particle-choice draws; {where}", rep)
+        if vetoed_all:
+            if res or len(moved):
+                viol_add(f"C11/{kind}/{opname}/{mode}/all-attempts-vetoed-but-changed", f"returned {res!r}, moved atoms {moved.tolist()}; {where}", rep)
             return
-        menu_ok = cps[0].n == len(uniq) and abs(cps[0].weight - 1.0 / len(uniq)) < 1e-12
-        if not menu_ok:
-            viol_add(f"C11/{kind}/{opname}/random/selection-not-uniform-over-eligible", f"choice among {cps[0].n} candidates with weight {cps[0].weight}; eligible {uniq}; {where}", rep)
+        if not res:
+            viol_add(f"C11/{kind}/{opname}/{mode}/reported-failure", f"returned {res!r} although labels {uniq} are eligible; {where}", rep)
             return
-        chosen = int(cps[0].label)
-        if chosen not in uniq:
-            viol_add(f"C11/{kind}/{opname}/random/selected-ineligible-label", f"chose {chosen}; {where}", rep)
+        if any(labels[i] < 0 for i in moved):
+            viol_add(f"C11/{kind}/{opname}/{mode}/negative-label-atom-moved", f"atoms {moved.tolist()} moved, labels {labels.tolist()}; {where}", rep)
             return
+        moved_labels = sorted({int(labels[i]) for i in moved})
+        if len(moved_labels) != 1:
+            # no atom moved (a zero proposal cannot be told apart) or atoms of several particles moved
+            if len(moved_labels) > 1:
+                viol_add(f"C11/{kind}/{opname}/{mode}/other-particle-moved", f"atoms {moved.tolist()} of particles {moved_labels} moved in one call; {where}", rep)
+            return
+        chosen = moved_labels[0]
     else:
         chosen = pre
     target = np.flatnonzero(labels == chosen)
     if len(target) > 1 or (labels < 0).any():
         counters["nontrivial"] += 1
-    checks = [p.idx for p in pts if p.kind == "user"]
-    vetoed_all = len(checks) == 2 and all(c == 1 for c in checks)
     if vetoed_all:
         if res or len(moved):
             viol_add(f"C11/{kind}/{opname}/{mode}/all-attempts-vetoed-but-changed", f"returned {res!r}, moved atoms {moved.tolist()}; {where}", rep)
@@ -172,7 +178,7 @@ def check_single(labels, opname, viol_add, counters, second=False, only=None, co
                     elif uniq and res and n:
                         pts_c = [p for p in pts if p.kind == "choice"]
                         chosen = pre if pre is not None else (int(pts_c[0].label) if pts_c else None)
-                        others = np.flatnonzero(labels != chosen)
+                        others = np.flatnonzero(labels != chosen) if chosen is not None else np.array([], int)
                         if len(others) > 1 and np.abs(ch_d[others] - ch_d[others][0]).max() > 1e-12:
                             viol_add(f"C11/single+{constraint}/{opname}/non-selected-atoms-not-shifted-rigidly", f"non-selected atoms moved by different vectors {js(ch_d[others])} (a centre-of-mass correction is one common shift); {where}", rep)
                     continue
